@@ -12,6 +12,8 @@ import (
 	"github.com/zclconf/go-cty/cty"
 
 	h "lssim/harness"
+	"lssim/model"
+	"lssim/world"
 )
 
 // C14: document and workspace symbols are a faithful outline; an unreadable
@@ -29,6 +31,7 @@ type msym struct {
 	name     string
 	s, e     int
 	children []*msym
+	isBlock  bool
 }
 
 func modelBody(b *hclsyntax.Body) []*msym {
@@ -51,7 +54,7 @@ func modelBody(b *hclsyntax.Body) []*msym {
 			name += fmt.Sprintf(" %q", l)
 		}
 		r := bl.Range()
-		out = append(out, &msym{name: name, s: r.Start.Byte, e: r.End.Byte, children: modelBody(bl.Body)})
+		out = append(out, &msym{name: name, s: r.Start.Byte, e: r.End.Byte, children: modelBody(bl.Body), isBlock: true})
 	}
 	sort.SliceStable(out, func(i, j int) bool { return out[i].s < out[j].s })
 	return out
@@ -151,6 +154,61 @@ func (o *C14) Check(x *h.Exec, ev *h.Event) {
 			}
 			if len(got) > 0 {
 				x.Cov.Probe("nonempty_outlines")
+			}
+		}
+	}
+	// JSON with schema: the same model rendered as HCL JSON (pretty or on one
+	// line) must give an outline in source order with the same block/attribute names
+	for pi, p := range x.S.Paths {
+		if !twinnable(p) || !x.S.Quiescent() {
+			continue
+		}
+		var key uint64
+		if c != nil {
+			key = c.Key
+		}
+		twin := jsonTwin(x, p, mix(key, uint64(pi)+5)%2 == 0)
+		parsed := true
+		for _, tf := range twin.Paths[0].Files {
+			if !tf.ParseOK {
+				parsed = false
+			}
+		}
+		if !parsed {
+			continue
+		}
+		for _, ord := range []h.Order{{P: "asc"}, {P: "desc"}, {P: "shuffle", Key: mix(key, 77)}} {
+			r := twin.Exec(h.Query{Kind: "symbols_ws", Path: 0, Order: ord})
+			x.Cov.Evaluations++
+			x.Cov.ByKind["symbols_ws"]++
+			got, ok := r.Val.([]decoder.Symbol)
+			if !ok || r.Panic != nil || r.Err != nil {
+				continue
+			}
+			x.Cov.Probe("json_outlines_checked")
+			if d := jsonOrder(got, ""); d != "" {
+				x.Report("json-source-order", "symbols_ws", "", fmt.Sprintf("path %s rendered as JSON (map order %s): %s", p.Path.Path, ord.P, d), nil)
+				return
+			}
+			// JSON is decoded through the schema: only items the effective schema
+			// knows can appear; blocks whose keys the statement leaves open are skipped
+			a, certain := schemaKnownNames(p)
+			if !certain {
+				continue
+			}
+			var b []string
+			for _, n := range symNames(got) {
+				// the content of dynamic blocks is not modelled
+				if i := strings.Index(n, "dynamic \""); i >= 0 && strings.Contains(n[i:], "/") {
+					continue
+				}
+				b = append(b, n)
+			}
+			sort.Strings(a)
+			sort.Strings(b)
+			if strings.Join(a, ";") != strings.Join(b, ";") {
+				x.Report("json-outline", "symbols_ws", "", fmt.Sprintf("path %s: outline of the JSON rendering %v differs from the native outline %v", p.Path.Path, short(fmt.Sprint(b), 500), short(fmt.Sprint(a), 500)), nil)
+				return
 			}
 		}
 	}
@@ -266,4 +324,140 @@ func keys(m map[int]bool) []int {
 	}
 	sort.Ints(out)
 	return out
+}
+
+// jsonOrder: symbols of one body must be in source order (by start byte; ties
+// by end byte are tolerated only for identical ranges).
+func jsonOrder(ss []decoder.Symbol, where string) string {
+	byFile := map[string]int{}
+	for _, s := range ss {
+		if s == nil || reflect.ValueOf(s).IsNil() {
+			continue
+		}
+		r := s.Range()
+		if last, ok := byFile[r.Filename]; ok && r.Start.Byte < last {
+			return fmt.Sprintf("%s: symbol %q at byte %d follows a symbol starting at byte %d (not in source order)", where, s.Name(), r.Start.Byte, last)
+		}
+		byFile[r.Filename] = r.Start.Byte
+		if _, isBlock := s.(*decoder.BlockSymbol); isBlock {
+			if d := jsonOrder(s.NestedSymbols(), where+"/"+s.Name()); d != "" {
+				return d
+			}
+		}
+	}
+	return ""
+}
+
+// modelNames / symNames: block and attribute names with their nesting (the
+// symbols of expressions are left out: JSON expressions have none).
+func modelNames(ms []*msym) []string {
+	var out []string
+	var rec func(prefix string, ms []*msym, isExpr bool)
+	rec = func(prefix string, ms []*msym, isExpr bool) {
+		for _, m := range ms {
+			out = append(out, prefix+m.name)
+			if m.isBlock {
+				rec(prefix+m.name+"/", m.children, false)
+			}
+		}
+	}
+	rec("", ms, false)
+	return out
+}
+
+func symNames(ss []decoder.Symbol) []string {
+	var out []string
+	var rec func(prefix string, ss []decoder.Symbol)
+	rec = func(prefix string, ss []decoder.Symbol) {
+		for _, s := range ss {
+			if s == nil || reflect.ValueOf(s).IsNil() {
+				continue
+			}
+			out = append(out, prefix+s.Name())
+			if _, isBlock := s.(*decoder.BlockSymbol); isBlock {
+				rec(prefix+s.Name()+"/", s.NestedSymbols())
+			}
+		}
+	}
+	rec("", ss)
+	return out
+}
+
+// schemaKnownNames lists the block/attribute outline of a path restricted to
+// items known to the effective schema (what a schema-driven JSON decoding can
+// see). certain=false: some block's keys or label count leave the decoding open.
+func schemaKnownNames(p *h.PathState) (names []string, certain bool) {
+	certain = true
+	blockName := func(bi *world.BlockItem) string {
+		n := bi.Type
+		for _, l := range bi.Labels {
+			n += fmt.Sprintf(" %q", l)
+		}
+		return n
+	}
+	var prefixFor func(mc *model.Ctx) (string, bool)
+	prefixFor = func(mc *model.Ctx) (string, bool) {
+		if mc.Parent == nil {
+			return "", true
+		}
+		if mc.Block == nil || mc.Item.Type == "dynamic" {
+			return "", false
+		}
+		pp, ok := prefixFor(mc.Parent)
+		if !ok {
+			return "", false
+		}
+		return pp + blockName(mc.Item) + "/", true
+	}
+	for _, f := range p.Files {
+		model.Walk(p.Spec.Schema, f.Spec.Items, func(mc *model.Ctx) {
+			if !certain {
+				return
+			}
+			prefix, ok := prefixFor(mc)
+			if !ok {
+				return // below a block the schema does not know
+			}
+			if uncertain(mc) {
+				certain = false
+				return
+			}
+			if mc.Eff != nil {
+				// a key attribute written as a reference is a template string in
+				// JSON: what it selects there is not defined by the statement
+				for _, ka := range mc.Eff.KeyAttrs {
+					for _, it := range mc.Items {
+						if it.Attr != nil && it.Attr.Name == ka && it.Attr.Expr != nil && it.Attr.Expr.K != "str" && it.Attr.Expr.K != "num" && it.Attr.Expr.K != "bool" && it.Attr.Expr.K != "raw" {
+							certain = false
+							return
+						}
+					}
+				}
+			}
+			if mc.Block != nil && len(mc.Item.Labels) != len(mc.Block.Labels) {
+				certain = false // JSON nests by label: another label count is another structure
+				return
+			}
+			if mc.Body == nil {
+				return
+			}
+			for _, it := range mc.Items {
+				switch {
+				case it.Attr != nil:
+					if mc.Body.Attr(it.Attr.Name) != nil || mc.Body.Any != nil {
+						names = append(names, prefix+it.Attr.Name)
+					}
+				case it.Block != nil:
+					if bs := mc.Body.Block(it.Block.Type); bs != nil {
+						if len(it.Block.Labels) != len(bs.Labels) {
+							certain = false
+							return
+						}
+						names = append(names, prefix+blockName(it.Block))
+					}
+				}
+			}
+		})
+	}
+	return names, certain
 }
